@@ -368,7 +368,7 @@ MASSES = [72.0, 36.0, 54.0, 45.5, 72]
 MACROS = ['FLEXIBLE', 'POSRES', 'A', 'B']
 GROUPS = [None, None, 'g', 'Backbone bonds', 'Side chain bonds']
 COMMENTS = [None, None, 'BB-SC1', 'note 1', 'x']
-PARAMS = ['1', '2', '0.47', '3800', '120', 'POSRES_FC', 0.35, 1250, 1, 2.5e-3]
+PARAMS = ['1', '2', '0.47', '3800', '120', 'POSRES_FC', 0.35, 1250, 1, 2.5e-3, 0, 0.0, '0', -1.5]
 
 
 def _rand_interactions(rng, mol, keys, count):
